@@ -5,7 +5,7 @@ from hypothesis import strategies as st
 
 from kopfsim import vclock
 from kopfsim.cluster import ResDef
-from kopfsim.sim import CPEER, KEX, Sim
+from kopfsim.sim import CPEER, KEX, NPEER, Sim
 from kopfsim.world import Livelock
 from runner.pbt import CaseResult, explore
 
@@ -63,22 +63,28 @@ def scenarios(draw):
             'settings': {'watching.reconnect_backoff': 0.1, 'networking.error_backoffs': [0.1, 0.5]}}
     return {'seed': draw(st.integers(0, 9999)), 'ops': ops, 'spec': spec, 'actions': actions,
             'api_latency': draw(st.sampled_from([0.0, 0.0, 0.05, 0.4])), 'watch_latency': draw(st.sampled_from([0.0, 0.0, 0.1, 0.6])),
-            'objects': draw(st.integers(1, 2))}
+            'objects': draw(st.integers(1, 2)),
+            # cluster-wide operators peer through a ClusterKopfPeering; operators that serve one namespace through a KopfPeering in it
+            'peer_kind': draw(st.sampled_from(['cluster', 'cluster', 'namespaced']))}
 
 
 class Run:
     def __init__(self, sc):
         self.sc = sc
         self.sim = Sim(resources=[ResDef('kopf.dev', 'v1', 'kopfexamples', 'KopfExample'),
-                                  ResDef('kopf.dev', 'v1', 'clusterkopfpeerings', 'ClusterKopfPeering', namespaced=False)], seed=sc.get('seed', 0))
+                                  ResDef('kopf.dev', 'v1', 'clusterkopfpeerings', 'ClusterKopfPeering', namespaced=False),
+                                  ResDef('kopf.dev', 'v1', 'kopfpeerings', 'KopfPeering')], seed=sc.get('seed', 0))
         self.c = self.sim.cluster
-        self.c.create(CPEER, None, 'default', {})
+        # the peering object: the cluster-wide kind for cluster-wide operators, the namespaced kind for operators serving one namespace
+        self.namespaced = sc.get('peer_kind') == 'namespaced'
+        self.pk = (NPEER, 'default') if self.namespaced else (CPEER, None)
+        self.c.create(*self.pk, 'default', {})
         for i in range(sc['objects']):
             self.c.create(KEX, 'default', f'o{i}', {'spec': {'f': 0}})
         if sc.get('api_latency'):
             self.c.api_latency = lambda req: sc['api_latency'] if 'patch' in req['classes'] else 0.0
         if sc.get('watch_latency'):
-            self.c.watch_latency = lambda w, ev: sc['watch_latency'] if w.rkey == CPEER else 0.0
+            self.c.watch_latency = lambda w, ev: sc['watch_latency'] if w.rkey == self.pk[0] else 0.0
         self.conf = {o['name']: o for o in sc['ops']}
         self.inc = {}            # op name -> current incarnation name
         self.count = {}
@@ -105,7 +111,8 @@ class Run:
                 conf = self.conf[act['op']]
                 spec = dict(self.sc['spec'])
                 spec['settings'] = dict(spec['settings'], **{'peering.lifetime': conf['lifetime']})
-                self.sim.start(name, spec, standalone=False, peering_name='default', priority=conf['priority'])
+                self.sim.start(name, spec, standalone=False, peering_name='default', priority=conf['priority'],
+                               **({'clusterwide': False, 'namespaces': ['default']} if self.namespaced else {}))
                 self.inc[act['op']] = name
                 self.lives.append({'name': name, 'op': act['op'], 't_start': now, 't_end': None, 'how': None})
                 self.t_change = now
@@ -137,10 +144,10 @@ class Run:
             elif act['how'] == 'dead':
                 rec['lastseen'] = vclock.iso(now - 1000.0)
                 rec['lifetime'] = 10
-            self.c.edit(CPEER, None, 'default', lambda b: b.setdefault('status', {}).update({act['id']: rec}))
+            self.c.edit(*self.pk, 'default', lambda b: b.setdefault('status', {}).update({act['id']: rec}))
             self.t_change = now
         elif a == 'unnoise':
-            self.c.edit(CPEER, None, 'default', lambda b: (b.get('status') or {}).pop(act['id'], None))
+            self.c.edit(*self.pk, 'default', lambda b: (b.get('status') or {}).pop(act['id'], None))
             self.t_change = now
         elif a == 'edit':
             self.n += 1
@@ -151,7 +158,7 @@ class Run:
             self.advance(max(0.0, self.t_change + 3.0 - self.sim.world.now))
             for _ in range(6):
                 now = self.sim.world.now
-                status = (self.c.objects[(CPEER, None, 'default')].get('status') or {})
+                status = (self.c.objects[(*self.pk, 'default')].get('status') or {})
                 mine = {self.inc[op] for op in self.inc if self.running(op)}
                 soon = []
                 for i, r in status.items():
@@ -165,7 +172,7 @@ class Run:
                 self.advance(max(soon) + 3.0 - now)
             self.n += 1
             t = self.sim.world.now
-            status = dict((self.c.objects[(CPEER, None, 'default')].get('status') or {}))
+            status = dict((self.c.objects[(*self.pk, 'default')].get('status') or {}))
             self.c.edit(KEX, 'default', 'o0', lambda b: b['spec'].update(f=self.n, probe=self.n))
             self.advance(2.5)
             self.settles.append({'t': t, 'probe': self.n, 'status': status,
@@ -245,7 +252,7 @@ def check(run, res):
             takeover = True
         prev_active = active_now
     # --- P3: keep-alives
-    vers = [v for v in c.history if v['rkey'] == CPEER]
+    vers = [v for v in c.history if v['rkey'] == run.pk[0]]
     for life in run.lives:
         name = life['name']
         op = life['op']
@@ -260,7 +267,7 @@ def check(run, res):
                 res.fail('C13/record-expired-while-running', f'{name} (lifetime {lifetime}s) wrote its record at t={t1} (valid till {deadline}), and renewed it only at t={t2}'
                          if r2 is not None else f'{name} (lifetime {lifetime}s) wrote its record last at t={t1} (valid till {deadline}) though it ran till t={t_end}')
         if life['how'] == 'stop':
-            final = (c.objects[(CPEER, None, 'default')].get('status') or {}).get(name)
+            final = (c.objects[(*run.pk, 'default')].get('status') or {}).get(name)
             later = [v for v in vers if v['t'] >= t_end - TOL]
             t_end = t_exit
             if final is not None and not any((v['body'].get('status') or {}).get(name) is None for v in later):
@@ -287,6 +294,19 @@ def check(run, res):
                 closed = [w for w in c.all_watches if w.session.client_id == key[0] and w.rkey == KEX and w.closed_at is not None and a['t0'] - TOL <= w.closed_at <= b['t0'] + TOL]
                 if not (patched and closed and int(b['rv']) < int(patched[0]['result_rv'])):
                     stale = False
+            # the same listed finding seen from the active peer: the paused operator's belated cycle (after its consistency timeout, on
+            # its stale view) wrote its outdated last-handled state onto the object, and the active operator handled the "change" again
+            if not stale:
+                def paused_writer(v):
+                    w = v['writer']
+                    if w in ('env', key[0]):
+                        return False
+                    mine = [x for x in c.all_watches if x.session.client_id == w and x.rkey == KEX]
+                    return bool(mine) and all(x.closed_at is not None and x.closed_at <= v['t'] + TOL for x in mine)
+                stale = all(any(v['rkey'] == KEX and v['uid'] == key[1] and a['seq'] < v['seq'] < b['seq'] and paused_writer(v) for v in c.history)
+                            for a, b in zip(xs, xs[1:]))
+                if stale:
+                    msg += ' - provoked by the belated write of a paused peer on its stale view'
             if stale:
                 res.known.append({'id': 'C13-T-pause-drops-own-patch-event-then-handler-reruns-on-stale-view', 'msg': msg})
             else:
